@@ -33,6 +33,13 @@ RemoveB(bk, id) ==
     IF Len(Head(bk).ids) = 1 THEN Tail(bk)
     ELSE <<[Head(bk) EXCEPT !.ids = SelectSeq(@, LAMBDA x : x # id)]>> \o Tail(bk)
 
+RECURSIVE Enc(_)
+Enc(q) == IF q = <<>> THEN 0 ELSE Enc(SubSeq(q, 1, Len(q) - 1)) * 10 + q[Len(q)]
+Rot(q) == IF q = <<>> THEN q ELSE Tail(q) \o <<Head(q)>>
+RECURSIVE NumDigits(_)
+NumDigits(n) == IF n = 0 THEN 0 ELSE 1 + NumDigits(n \div 10)
+Digits(n) == {(n \div (10 ^ k)) % 10 : k \in 0..(NumDigits(n) - 1)}
+
 (* is nv an admissible next content of value v ? (slack: rounding of scaled doubles) *)
 NextValOK(v, nv, slack) ==
     CASE v.kind = "const" -> nv = v.val
@@ -42,8 +49,13 @@ NextValOK(v, nv, slack) ==
       [] v.kind = "list" ->
             IF v.random THEN \E i \in 1..Len(v.opts) : v.opts[i] = nv
             ELSE nv = v.opts[v.pos]
-      [] v.kind = "sublist" -> TRUE      \* string lists: membership is checked on the tokens by the driver-independent rule below
+      \* string lists (leaf-lists), content encoded as the decimal number whose digits are the strings' ids (1..9):
+      \* random - some of the options, each at most once, in any order; otherwise the options rotated by one more place
+      [] v.kind = "sublist" ->
+            IF v.random THEN Digits(nv) \subseteq {v.opts[i] : i \in 1..Len(v.opts)} /\ NumDigits(nv) = Cardinality(Digits(nv))
+            ELSE nv = Enc(Rot(v.opts))
 
+NextOpts(v) == IF v.kind = "sublist" /\ ~v.random THEN Rot(v.opts) ELSE v.opts
 NextPos(v) == IF v.kind = "list" /\ ~v.random THEN (v.pos % Len(v.opts)) + 1 ELSE v.pos
 
 (* Bounded model: deltas collapsed to points are deterministic *)
